@@ -83,17 +83,23 @@ def ou():
                          DLMOD + ":OU_FPENonStatioLoss2D.sigma_mat", DLMOD + ":OU_FPENonStatioLoss2D.diffusion"] + ABS)
 
 
-def glv(n_other, layout, tshape, keys=None):
+def glv(n_other, layout, tshape, keys=None, unnamed=()):
+    """unnamed: further populations present in u_dict / params that this equation does not name (a partially coupled
+    system): they do not enter the residual"""
     keys = keys or [str(k) for k in range(1 + n_other)]
     def build():
-        nets = {k: Net(f"G{k}", "ODE", 1, 1, positive=True) for k in keys}
-        u_dict = {k: nets[k].u for k in keys}
+        nets = {k: Net(f"G{k}", "ODE", 1, 1, positive=True) for k in list(keys) + list(unnamed)}
+        u_dict = {k: nets[k].u for k in list(keys) + list(unnamed)}
         def mk_params(ths, growth, inter, cc):
             nn = {k: nets[k].nn_params(ths[i]) for i, k in enumerate(keys)}
+            for k in unnamed:
+                nn[k] = nets[k].nn_params(ths[0] * 3.0 + 1.0)
             if layout == "per-network":
                 # each network has its own parameter dict; only the main one's values may be used
                 eq = {k: {"growth_rate": growth[i], "interactions": inter[i], "carrying_capacity": cc[i]}
                       for i, k in enumerate(keys)}
+                for k in unnamed:
+                    eq[k] = {"growth_rate": growth[0] + 1.0, "interactions": inter[0], "carrying_capacity": cc[0] + 2.0}
             else:
                 eq = {"growth_rate": growth[0], "interactions": inter[0], "carrying_capacity": cc[0]}
             return ParamsDict(nn_params=nn, eq_params=eq)
@@ -114,7 +120,8 @@ def glv(n_other, layout, tshape, keys=None):
         return dict(fn=fn, spec=body, canary=lambda *a: body(*a, wrong=True),
                     inputs=[Inp("t", tshape, "unit"), Inp("th", (1 + n_other, 1)), Inp("growth", (1 + n_other,)),
                             Inp("inter", (1 + n_other, 1 + n_other)), Inp("cc", (1 + n_other,)), Inp("Tmax", (), "pos")])
-    return EqObligation(f"C02/GeneralizedLotkaVolterra.evaluate/ensures[others={n_other},layout={layout},t={tshape},keys={'/'.join(keys)}]", build,
+    return EqObligation(f"C02/GeneralizedLotkaVolterra.evaluate/ensures[others={n_other},layout={layout},t={tshape},keys={'/'.join(keys)}"
+                        f"{'' if not unnamed else ',populations_not_named_by_the_equation=' + '/'.join(unnamed)}]", build,
                         [DLMOD + ":GeneralizedLotkaVolterra.equation", "jinns.loss._DynamicLossAbstract:ODE.evaluate",
                          "jinns.parameters._params:ParamsDict.extract_params"])
 
@@ -257,6 +264,12 @@ def obligations(tier):
     obs.append(glv(1, "per-network", (1,)))
     obs.append(glv(2, "per-network", (), keys=["prey", "zebra", "ant"]))      # keys_other listed out of alphabetical order
     obs.append(glv(2, "shared", (), keys=["m", "z", "a"]))
+    obs.append(glv(1, "per-network", (), keys=["a", "b"], unnamed=("c",)))     # a partially coupled system
+    obs.append(glv(0, "shared", (), keys=["m"], unnamed=("a", "z")))
+    for (dx_, B_) in ((1, 2), (2, 2)):      # growth rate given on the grid of a separable network (heterogeneous r)
+        o = c11.fisher_grid_r_ob(dx_, B_)
+        o.name = o.name.replace("C11/", "C02/")
+        obs.append(o)
     for layout in ("per-network", "shared"):
         obs.append(mass(False, layout))
     obs.append(mass(True, "shared"))
